@@ -132,7 +132,41 @@ def store_rules(ctx, F):
                   "in %s the trusted roots come from %s" % (b.path, src or "an unrecognised source"), c.span)
 
 
+def loaders_fresh(ctx, F):
+    """certificate / key loaders are pure functions of the file's *current* content: fs::read on every Ok path, no static / cached state"""
+    names = []
+    for p, b in sorted(F.bodies.items()):
+        base = p.split("::<")[0]
+        if base in ("selium::crypto::cert::load_certs", "selium::crypto::cert::load_key", "selium::crypto::cert::load_root_store", "selium::crypto::cert::load_keypair",
+                    "selium_server::quic::load_certs", "selium_server::quic::load_key", "selium_server::quic::load_root_store", "selium_server::quic::read_certs") and "{closure" not in p:
+            names.append(b)
+    ctx.floor("C15.D2.loaders-fresh.functions", len(names), 8)
+    for b in names:
+        ctx.touch(b)
+        region = F.region([b])
+        stat = []
+        for rb in region.values():
+            for i, j, pl, rv, s in rb.assigns():
+                for o in ([rv.get("op")] if rv["k"] in ("use", "cast") else rv.get("ops", [])):
+                    if o and o.get("k") == "const" and "static" in o:
+                        stat.append(o["static"])
+            for c in rb.calls():
+                n = strip_generics(c.callee)
+                if any(x in n for x in ("LocalKey", "OnceLock", "OnceCell", "once_cell", "lazy_static", "LazyLock", "thread_local")):
+                    stat.append(n)
+                for a in c.args:
+                    if a.get("k") == "const" and "static" in a:
+                        stat.append(a["static"])
+        ctx.check(not stat, "C15.D2.loaders-fresh", "loader-cached-state:%s" % b.path.split("::<")[0], "%s keeps no static / cached state (%s)" % (b.path.split("::<")[0], stat or "none"), b.span)
+        if b.name in ("load_certs", "load_key"):
+            rd = [c for c in b.calls() if strip_generics(c.callee) == "std::fs::read"]
+            oks = [i for i, j, pl, rv, s in K.aggregates(b, "core::result::Result") if rv["variant"] == "Ok" and pl["l"] == 0]
+            ok = bool(rd) and bool(oks) and all(any(b.dominates(c.bb, o) for c in rd) for o in oks)
+            ctx.check(ok, "C15.D2.loaders-fresh", "loader-skips-read:%s" % b.path.split("::<")[0], "%s reads the file on every successful path" % b.path.split("::<")[0], b.span)
+
+
 def d2(ctx, F):
+    loaders_fresh(ctx, F)
     cc = F.body("selium::connection::configure_client")
     ctx.touch(cc)
     co = F.adt("selium::connection::ConnectionOptions")
